@@ -651,17 +651,17 @@ package evaluator
 //@   loop 1
 //@     invariant fresh(r) && r != nil && (forall k Int :: hasKey(r, k) ==> isArr(getKey(r, k)) && fresh(arr(getKey(r, k))))
 //@ func evaluator.sortArrayBy
-//@   tags C03 C06 C13
+//@   tags C03 C06 C13 C02
 //@   requires node != nil
 //@ func evaluator.arrayMaxBy
-//@   tags C03 C06 C13
+//@   tags C03 C06 C13 C02
 //@   requires node != nil
 //@   loop 1
 //@     invariant 0 <= index && index < len(a) && len(a) >= 1
 //@   loop 2
 //@     invariant 0 <= index && index < len(a) && len(a) >= 1
 //@ func evaluator.arrayMinBy
-//@   tags C03 C06 C13
+//@   tags C03 C06 C13 C02
 //@   requires node != nil
 //@   loop 1
 //@     invariant 0 <= index && index < len(a) && len(a) >= 1
